@@ -18,10 +18,16 @@
    invariant of the worklist construction, merge included).  Distinct states have distinct LR(0)
    cores and each target has the core of the closure of the advanced kernel (BInv, machine_uniq):
    the automaton is the LR(0) automaton of the grammar and the lookaheads are the LALR(1) ones.
-   NOT proved: the equivalence of this least-fixpoint characterisation with the textbook
-   definition by merging canonical LR(1) states (decided per grammar by the check against a
-   brute-force canonical-LR(1)-then-merge reference), and that the FIRST map is the least one.  Decided per grammar by the check: tables read from
-   the emitted text compared cell for cell with a brute-force LALR(1) reference up to renumbering. *)
+   AND that is the textbook definition, at the level of the emitted tables
+   (C17_states_are_the_merged_canonical_LR1_sets, LR/CanonLR1.v, LR/FirstExact.v): with I(g) the
+   canonical LR(1) item set reached by the viable prefix g, the annotation of state s is exactly
+   the union of the I(g) over the g whose path through the ACTION/GOTO tables ends in s, each
+   such I(g) has exactly the core of s, and the FIRST table behind the closure rule is exactly
+   FIRST / nullable of the grammar (closed AND least).  With C17_all_tables_carry_the_invariants
+   (every cell is demanded by an item, every demand is in its cell) the emitted tables are the
+   LALR(1) tables: shift/goto on the transitions, reduce exactly on the merged lookahead sets.
+   The check still compares the tables read from the emitted text cell for cell with a
+   brute-force LALR(1) reference up to renumbering. *)
 From Coq Require Import List.
 From Kiki Require Import Base.Ord Base.Chars Data LR.Driver LR.Grammar LR.Inv LR.Validate LR.ValidateProofs.
 
@@ -40,14 +46,14 @@ Section C17.
   Proof. exact (validate_Inv T ann ft Hv). Qed.
 End C17.
 
-From Kiki Require Import LR.Viable LR.Least Emit.Parser Pipeline PipelineProofs.
+From Kiki Require Import LR.Viable LR.Least LR.CanonLR1 LR.FirstExact Emit.Parser Pipeline PipelineProofs.
 
 Theorem C17_all_tables_carry_the_invariants : forall ho digest src out text,
   perm_hash_order ho -> generate_full ho digest src = Ok (out, text) ->
   exists pt (ann : list (list Grammar.item)) (ft : first_table),
     ptable_of (go_file out) (go_table out) = Some pt /\
     Inv pt ann (fseq ft) /\ Inv2 pt ann /\ (forall P (kind : P -> nat), FirstOK kind pt (fseq ft)) /\ Inv3 pt ann /\
-    Least pt ann (fseq ft).
+    Least pt ann (fseq ft) /\ (first_closed ft (pt_rules pt) = true /\ FirstLeast pt ft).
 Proof. exact generate_tables_invariants. Qed.
 
 (* the lookahead sets are LEAST: an item is in a state exactly when it is derivable from the start
@@ -59,7 +65,18 @@ Theorem C17_lookahead_sets_are_exactly_the_derivable_items : forall ho digest sr
     forall s it, In_state ann it s <-> lder pt (fseq ft) s it.
 Proof. exact emitted_annotation_is_exact. Qed.
 
+Theorem C17_states_are_the_merged_canonical_LR1_sets : forall ho digest src out text,
+  perm_hash_order ho -> generate_full ho digest src = Ok (out, text) ->
+  exists pt (ann : list (list Grammar.item)) (ft : first_table),
+    ptable_of (go_file out) (go_table out) = Some pt /\
+    (forall s it, In_state ann it s <-> exists g, path pt g s /\ valid1 pt (fseq ft) g it) /\
+    (forall g s, path pt g s -> forall it, In_state ann it s ->
+                 exists it', valid1 pt (fseq ft) g it' /\ same_core_item it it') /\
+    (forall n t, In t (first_of ft n) <-> pfirst pt n t) /\ (forall n, nullable_of ft n = true <-> pnull pt n).
+Proof. exact emitted_states_are_merged_canonical_LR1. Qed.
+
 Print Assumptions C17_every_cell_is_demanded.
+Print Assumptions C17_states_are_the_merged_canonical_LR1_sets.
 Print Assumptions C17_every_demand_is_in_the_table.
 Print Assumptions C17_all_tables_carry_the_invariants.
 Print Assumptions C17_lookahead_sets_are_exactly_the_derivable_items.
